@@ -49,6 +49,12 @@ pub const TEMPLATES: &[Template] = &[
     Template { name: "derived-alias", position: "derived", setup: "CREATE TABLE t(a, b); INSERT INTO t VALUES (1, 2), (3, 4);", prql: "from t | derive {§ = a + 10} | select {§, b}", reference: "SELECT a + 10, b FROM t" },
     Template { name: "derived-alias-through-split", position: "derived", setup: "CREATE TABLE t(a, b); INSERT INTO t VALUES (1, 2), (3, 4), (5, 6);", prql: "from t | select {a, b} | derive {§ = a + 10} | sort a | take 2 | filter § > 11 | select {§}", reference: "SELECT 13" },
     Template { name: "let-name", position: "let", setup: "CREATE TABLE t(a, b); INSERT INTO t VALUES (1, 2), (3, 4);", prql: "let § = (from t | select {a, b} | filter a > 1)\nfrom § | select {b}", reference: "SELECT 4" },
+    // the name inside the `{…}` of an interpolated string (¶ = the quote character that the name does not contain)
+    Template { name: "column-in-f-string", position: "interpolation", setup: "CREATE TABLE t(k, §); INSERT INTO t VALUES (1, 'x'), (2, 'y'), (3, 'z');", prql: "from t | select {k, v = f¶<{§}>¶}", reference: "SELECT k, '<' || § || '>' FROM t" },
+    Template { name: "column-in-s-string-filter", position: "interpolation", setup: "CREATE TABLE t(k, §); INSERT INTO t VALUES (1, 10), (2, 20), (3, 5);", prql: "from t | filter s¶{§} > 7¶ | select {k}", reference: "SELECT k FROM t WHERE § > 7" },
+    Template { name: "qualified-column-in-s-string", position: "interpolation", setup: "CREATE TABLE t(k, §); INSERT INTO t VALUES (1, 10), (2, 20), (3, 5);", prql: "from t | select {k, v = s¶{t.§} + 1¶}", reference: "SELECT k, § + 1 FROM t" },
+    Template { name: "column-in-s-string-through-split", position: "interpolation", setup: "CREATE TABLE t(k, §); INSERT INTO t VALUES (1, 10), (2, 20), (3, 5), (4, 30);", prql: "from t | select {k, §} | sort k | take 3 | filter s¶{§} > 7¶ | select {k, w = f¶{§}-{k}¶}", reference: "SELECT k, § || '-' || k FROM t WHERE k < 4 AND § > 7" },
+    Template { name: "table-alias-in-s-string", position: "interpolation", setup: "CREATE TABLE t(k, b); INSERT INTO t VALUES (1, 10), (2, 20), (3, 5);", prql: "from § = t | select {k, v = s¶{§.b} + 1¶}", reference: "SELECT k, b + 1 FROM t" },
     Template { name: "let-name-joined", position: "let", setup: "CREATE TABLE t(a, b); INSERT INTO t VALUES (1, 2), (3, 4); CREATE TABLE u(a, d); INSERT INTO u VALUES (1, 7), (3, 8);", prql: "let § = (from t | select {a, b})\nfrom u | join § (==a) | select {u.d, §.b}", reference: "SELECT u.d, t.b FROM u JOIN t ON t.a = u.a" },
 ];
 
@@ -170,7 +176,14 @@ pub fn check_case(t: &Template, name: &str, d: Dialect) -> Option<Bad> {
         // the engine itself cannot hold an object of this name (e.g. reserved `sqlite_` prefix)
         return None;
     }
-    let src = t.prql.replace('§', &q_prql(name)).replace('¤', &q_prql(&next));
+    // ¶: the quote character delimiting an interpolated string — one the name does not contain
+    let quote = match (name.contains('"'), name.contains('\'')) {
+        (false, _) => "\"",
+        (true, false) => "'",
+        (true, true) if t.prql.contains('¶') => return None,
+        _ => "\"",
+    };
+    let src = t.prql.replace('§', &q_prql(name)).replace('¤', &q_prql(&next)).replace('¶', quote);
     let sql = match guard(|| prqlc::compile(&src, &opts(d))) {
         Err(p) => return Some(Bad { key: crate::c12::panic_key(&p), why: format!("{src}: panic at {}: {}", p.site, p.msg) }),
         Ok(Err(e)) => return Some(Bad { key: format!("identifier-rejected:{}", t.position), why: format!("{src}: {}", err_text(&e)) }),
